@@ -36,6 +36,8 @@ type Val struct {
 	From    *Addr // address the value was loaded from (provenance, for guarded_by)
 	Sub     *SubObj // pointer to a nested struct field: which field of which object
 	Borrowed string // non-empty: a slice borrowed from a callee (valid only until its next call); names the lender
+	Shared   string // non-empty ([]byte values): read from memory that existed before this call (its backing array is shared); says from where
+	NotShrunk string // for a re-slice of a Shared []byte: SMT condition "the high bound is the full length" (appending then does not overwrite shared bytes)
 }
 
 type SubObj struct {
